@@ -104,6 +104,10 @@ class AstDB:
         for t in self.tops:
             self._index(t, ["Clipper2Lib"], None, False)
         self._link_defs()
+        self.inlined_helpers = []
+        if not os.environ.get("VERIF_NO_INLINE"):
+            for _ in range(2):                 # helpers calling helpers: two rounds
+                self._inline_new_helpers()
 
     # -- indexing ---------------------------------------------------------
     def _index(self, n, ctx, cls, in_tmpl):
@@ -238,6 +242,222 @@ class AstDB:
                     if g.mangled == f.mangled:
                         self._def_of[fid] = g
                         break
+
+    # -- new small helpers are inlined at their call sites ------------------------------
+    _known_names = None
+
+    @classmethod
+    def known_names(cls):
+        if cls._known_names is None:
+            fn = os.path.join(os.path.dirname(os.path.abspath(__file__)), "known_functions.txt")
+            with open(fn) as fh:
+                cls._known_names = {l.strip() for l in fh if l.strip() and not l.startswith("#")}
+        return cls._known_names
+
+    PURE_ARG_KINDS = ("DeclRefExpr", "MemberExpr", "ImplicitCastExpr", "ParenExpr", "IntegerLiteral", "FloatingLiteral", "CXXBoolLiteralExpr",
+                      "CXXNullPtrLiteralExpr", "UnaryOperator", "ArraySubscriptExpr", "CXXThisExpr", "MaterializeTemporaryExpr", "BinaryOperator",
+                      "CXXConstructExpr", "CXXStaticCastExpr", "CXXFunctionalCastExpr", "CStyleCastExpr", "ExprWithCleanups", "CXXBindTemporaryExpr",
+                      "CXXOperatorCallExpr", "CXXDefaultArgExpr", "StringLiteral", "CharacterLiteral", "ConditionalOperator", "ConstantExpr")
+
+    def _helper_shape(self, f):
+        """How a helper can be expanded at a call site: 'expr' ({ return e; }), 'block' (void, no return inside),
+        'build' ({ T v...; stmts; return v; }), or None."""
+        if f.body is None or f.is_pattern or f.kind not in ("FunctionDecl", "CXXMethodDecl"):
+            return None
+        if any(not p.get("name") for p in f.params) or f.node.get("variadic"):
+            return None
+        st = [x for x in kids(f.body) if isinstance(x, dict) and x.get("kind")]
+        if not st or len(st) > 14:
+            return None
+        nodes = list(walk(f.body))
+        if any(x.get("kind") in ("GotoStmt", "LabelStmt", "CXXTryStmt", "LambdaExpr", "CoreturnStmt") for x in nodes):
+            return None
+        # no recursion, no assignment to a by-value parameter
+        for x in nodes:
+            if x.get("kind") in ("CallExpr", "CXXMemberCallExpr") and self.callee(x)[1] in (f.id,):
+                return None
+        byval = {p["id"] for p in f.params if "id" in p and not qt(p).rstrip().endswith(("&", "&&"))}
+        for x in nodes:
+            if x.get("kind") in ("BinaryOperator", "CompoundAssignOperator") and (x.get("opcode") == "=" or x.get("kind") == "CompoundAssignOperator"):
+                l = strip(kids(x)[0])
+                if l.get("kind") == "DeclRefExpr" and l.get("referencedDecl", {}).get("id") in byval:
+                    return None
+            if x.get("kind") == "UnaryOperator" and x.get("opcode") in ("++", "--"):
+                l = strip(kids(x)[0])
+                if l.get("kind") == "DeclRefExpr" and l.get("referencedDecl", {}).get("id") in byval:
+                    return None
+        rets = [x for x in nodes if x.get("kind") == "ReturnStmt"]
+        rtype = qt(f.node).split("(")[0].strip()
+        if len(st) == 1 and st[0].get("kind") == "ReturnStmt" and kids(st[0]):
+            return "expr"
+        if not rets and rtype == "void":
+            return "block"
+        if len(rets) == 1 and st[-1] is rets[0] and kids(rets[0]):
+            r = strip(kids(rets[0])[0])
+            while r.get("kind") in ("CXXConstructExpr",) and len(kids(r)) == 1:
+                r = strip(kids(r)[0])
+            if r.get("kind") == "DeclRefExpr":
+                vid = r.get("referencedDecl", {}).get("id")
+                for s0 in st[:-1]:
+                    if s0.get("kind") == "DeclStmt":
+                        ds = [d for d in kids(s0) if d.get("kind") == "VarDecl"]
+                        if len(ds) == 1 and ds[0].get("id") == vid:
+                            return "build"
+        return None
+
+    def _pure(self, e):
+        for x in walk(e):
+            k = x.get("kind")
+            if k is None:
+                continue
+            if k not in self.PURE_ARG_KINDS:
+                return False
+            if k in ("BinaryOperator",) and x.get("opcode") in ("=", ","):
+                return False
+            if k == "UnaryOperator" and x.get("opcode") in ("++", "--"):
+                return False
+            if k == "CXXOperatorCallExpr":
+                nm = strip(kids(x)[0]).get("referencedDecl", {}).get("name", "")
+                if nm not in ("operator[]", "operator*", "operator->", "operator+", "operator-"):
+                    return False
+        return True
+
+    @staticmethod
+    def _subst(node, mapping):
+        """Deep copy of `node` with DeclRefExprs to the ids in `mapping` replaced by (copies of) the mapped expressions."""
+        import copy
+        if isinstance(node, list):
+            return [AstDB._subst(x, mapping) for x in node]
+        if not isinstance(node, dict):
+            return node
+        if node.get("kind") == "DeclRefExpr":
+            rid = node.get("referencedDecl", {}).get("id")
+            if rid in mapping:
+                return {"kind": "ParenExpr", "type": node.get("type"), "inner": [copy.deepcopy(mapping[rid])], "file": node.get("file"), "line": node.get("line")}
+        out = {}
+        for k, v in node.items():
+            out[k] = AstDB._subst(v, mapping) if k == "inner" else v
+        return out
+
+    def _inline_new_helpers(self):
+        known = self.known_names()
+        helpers = {}
+        for f in self.funcs:
+            fl = f.file or ""
+            if f.name in known or not f.name or not ("Clipper2Lib" in fl or "clipper2" in fl):
+                continue
+            shape = self._helper_shape(f)
+            if shape:
+                helpers[f.id] = (f, shape)
+        if not helpers:
+            return
+        by_decl = {}
+        for did, g in self._def_of.items():
+            if g.id in helpers:
+                by_decl[did] = helpers[g.id]
+        for hid, hv in helpers.items():
+            by_decl[hid] = hv
+
+        def target(call):
+            if not isinstance(call, dict) or call.get("kind") not in ("CallExpr", "CXXMemberCallExpr"):
+                return None
+            name, did, kind = self.callee(call)
+            hv = by_decl.get(did)
+            if hv is None:
+                return None
+            f, shape = hv
+            if call.get("kind") == "CXXMemberCallExpr":
+                mb = self.member_base(call)
+                if mb is not None and strip(mb).get("kind") != "CXXThisExpr":
+                    return None
+            args = self.call_args(call)
+            if len(args) != len(f.params):
+                return None
+            m = {}
+            for p0, a in zip(f.params, args):
+                if strip(a).get("kind") == "CXXDefaultArgExpr" or not self._pure(a) or "id" not in p0:
+                    return None
+                m[p0["id"]] = a
+            return f, shape, m
+
+        def unwrap(e):
+            e = strip(e)
+            while e.get("kind") == "CXXConstructExpr" and len(kids(e)) == 1:
+                e = strip(kids(e)[0])
+            return e
+
+        count = [0]
+
+        def rewrite(node, in_stmt_list):
+            ks = node.get("inner")
+            if not ks:
+                return
+            i = 0
+            while i < len(ks):
+                c = ks[i]
+                if not isinstance(c, dict):
+                    i += 1
+                    continue
+                k = node.get("kind")
+                stmt_slot = k in ("CompoundStmt",) or (k in ("IfStmt", "ForStmt", "WhileStmt", "DoStmt", "CXXForRangeStmt", "CaseStmt", "DefaultStmt") )
+                # (1) a void helper called as a statement
+                t = target(strip(c)) if stmt_slot else None
+                if t and t[1] == "block":
+                    f, shape, m = t
+                    body = [self._subst(x, m) for x in kids(f.body)]
+                    has_decl = any(x.get("kind") == "DeclStmt" for x in body)
+                    if k == "CompoundStmt" and not has_decl:
+                        ks[i:i + 1] = body
+                    else:
+                        ks[i] = {"kind": "CompoundStmt", "inner": body, "file": c.get("file"), "line": c.get("line")}
+                    count[0] += 1
+                    self.inlined_helpers.append(f.qual)
+                    continue
+                # (3) T v = helper(...)  with  helper = { T r...; ...; return r; }
+                if k == "CompoundStmt" and c.get("kind") == "DeclStmt":
+                    ds = [d for d in kids(c) if d.get("kind") == "VarDecl"]
+                    if len(ds) == 1:
+                        init = [z for z in kids(ds[0]) if isinstance(z, dict) and z.get("kind")]
+                        t = target(unwrap(init[-1])) if init else None
+                        if t and t[1] == "build":
+                            f, shape, m = t
+                            st = [x for x in kids(f.body) if isinstance(x, dict) and x.get("kind")]
+                            ret = strip(kids(st[-1])[0])
+                            while ret.get("kind") == "CXXConstructExpr" and len(kids(ret)) == 1:
+                                ret = strip(kids(ret)[0])
+                            vid = ret["referencedDecl"]["id"]
+                            mine = {"kind": "DeclRefExpr", "type": ds[0].get("type"),
+                                    "referencedDecl": {"id": ds[0].get("id"), "kind": "VarDecl", "name": ds[0].get("name"), "type": ds[0].get("type")}}
+                            m2 = dict(m)
+                            m2[vid] = mine
+                            new = []
+                            for x in st[:-1]:
+                                y = self._subst(x, m2)
+                                if x.get("kind") == "DeclStmt" and any(d.get("id") == vid for d in kids(x)):
+                                    for d in kids(y):
+                                        if d.get("id") == vid:
+                                            d["id"] = ds[0].get("id")
+                                            d["name"] = ds[0].get("name")
+                                new.append(y)
+                            ks[i:i + 1] = new
+                            count[0] += 1
+                            self.inlined_helpers.append(f.qual)
+                            continue
+                # (2) an expression helper anywhere
+                t = target(c)
+                if t and t[1] == "expr":
+                    f, shape, m = t
+                    e = self._subst(kids(kids(f.body)[0])[0], m)
+                    ks[i] = {"kind": "ParenExpr", "type": c.get("type"), "inner": [e], "file": c.get("file"), "line": c.get("line")}
+                    count[0] += 1
+                    self.inlined_helpers.append(f.qual)
+                    continue
+                rewrite(c, False)
+                i += 1
+
+        for f in self.funcs:
+            if f.body is not None:
+                rewrite(f.body, True)
 
     # -- lookup --------------------------------------------------------------
     def definition(self, decl_id):
